@@ -23,8 +23,8 @@ MANIFEST = dict(
          '`sort_sites_covered`, `class_state_covered`, `no_ambient_sources` (by `decide` / `rfl`) break the build when '
          'a new one appears. Class-level caches: `class_cache_history_free`, `tracker_history_free`. '
          'Observed by testing, NOT proved: that hash seeds, separate processes, output directories and process '
-         'history change nothing -- byte comparison of all files of 13 backend invocations across fresh interpreters '
-         '(PYTHONHASHSEED 0 / random, two output directories) and single interpreters that ran an unrelated spec, the '
+         'history change nothing -- byte comparison of all files of 14 backend invocations (option sets with several --extra-arg / --attribute-comment keyed on route attributes) across fresh interpreters '
+         '(PYTHONHASHSEED 0 / random, two output directories) and single interpreters that ran an unrelated spec or an ABORTED build of the same backend, the '
          'same backend on it and other backends before; and that the site models are the code (differential runs on '
          'the modelled lines).',
     note='Trusted: Lean kernel, translator (the dataflow of ex_setiter.py is function-local and by attribute name; it '
